@@ -5,6 +5,9 @@ use poulpy_verif_harness::hal::*;
 use poulpy_verif_harness::rec::*;
 use poulpy_verif_harness::with_be;
 
+#[path = "../c09_big.rs"]
+mod c09_big;
+
 #[derive(Clone, Copy)]
 struct Sh { n: usize, cols: usize, size: usize, max: usize, col: usize }
 fn sh(p: &[i128], k: usize) -> Sh {
@@ -13,6 +16,7 @@ fn sh(p: &[i128], k: usize) -> Sh {
 }
 
 fn op(r: &Rec) -> Vec<Vec<i128>> {
+    if (9100..9200).contains(&r.code) { return c09_big::op(r); }
     let p = &r.ps;
     let be = p[0];
     let (rs, sa, sb) = (sh(p, 0), sh(p, 1), sh(p, 2));
@@ -115,6 +119,7 @@ pub fn generate(tier: &str, seed: u64) -> Vec<Rec> {
         ps.extend(extra);
         out.push(Rec::new(code, ps, vs));
     }
+    c09_big::generate(tier, &mut rng, &mut out);
     out
 }
 
